@@ -398,63 +398,7 @@ func genC09(c *Ctx) {
 		}
 		c.Case("dkg-targeted/"+proto, "expect nopanic #failed-start-"+proto, res)
 	}
-	// exhaustive short sequences of well-formed messages at a non-dealer, in every order (answers before
-	// complaints, complaints before the vector, ...): no order may panic, and every order is a model case too
-	for _, proto := range []string{"fvssq", "joint", "fvss"} {
-		n, t, me, dealer, other := 3, 1, 1, 0, 2
-		p := c.randPoly(t)
-		alphabet := []string{
-			"B:0:" + hx(p.vectorMsg()),
-			"P:0:" + hx(shareMsg(p.eval(me + 1))),
-			"P:0:" + hx(shareMsg(c.randScalar())),
-			fmt.Sprintf("B:%d:%s", other, hx(complaintMsg(dealer))),
-			"B:0:" + hx(answerMsg(other, p.eval(other+1))),
-			"B:0:" + hx(answerMsg(other, c.randScalar())),
-			"B:0:" + hx(answerMsg(me, p.eval(me+1))),
-			"T",
-		}
-		maxLen := 3
-		if proto != "fvssq" {
-			maxLen = 2
-		}
-		if c.thorough() {
-			maxLen++
-		}
-		var seqs [][]int
-		var rec func(cur []int)
-		rec = func(cur []int) {
-			if len(cur) > 0 {
-				seqs = append(seqs, append([]int{}, cur...))
-			}
-			if len(cur) == maxLen {
-				return
-			}
-			for a := range alphabet {
-				rec(append(cur, a))
-			}
-		}
-		rec(nil)
-		seed := "S:" + hx(c.bytes(32))
-		for si, sq := range seqs {
-			nd, err := newDkgNode(proto, n, t, me, dealer)
-			if err != nil {
-				panic(err)
-			}
-			nd.call(seed)
-			for _, a := range sq {
-				nd.call(alphabet[a])
-			}
-			nd.call("T")
-			nd.call("T")
-			nd.call("E")
-			res := "nopanic"
-			if nd.panicked {
-				res = "PANIC in " + nd.line()
-			}
-			c.Case("dkg-enum/"+proto, fmt.Sprintf("expect nopanic #enum-%s-%d", proto, si), res)
-			c.Case("dkg-enum-model/"+proto, nd.line(), nd.answer())
-		}
-	}
+	genDkgEnum(c, true)
 
 	for _, g := range [][4]int{{-1, 1, 0, 0}, {1 << 40, 1, 0, 0}, {3, -1, 0, 0}, {3, 1 << 40, 0, 0}, {3, 1, -1, 0}, {3, 1, 1 << 40, 0}, {3, 1, 0, -1}, {3, 1, 0, 1 << 40}} {
 		c.probe("DKG-constructors", fmt.Sprint(g), true, func() (string, error) {
@@ -569,4 +513,97 @@ func ordered[V any](m map[string]V) []kv[V] {
 		out = append(out, kv[V]{k, m[k]})
 	}
 	return out
+}
+
+// genDkgEnum: exhaustive short sequences of dealer / complainer messages at one honest non-dealer, in every
+// order (answers before complaints, complaints before the vector, a second share after the answer, ...).
+// Every order is a correspondence case for the Lean state machine (the answer line carries the callbacks and
+// the keys returned by End); with nopanic set, every order is also a no-panic case (C09).
+func genDkgEnum(c *Ctx, nopanic bool) {
+	for _, proto := range []string{"fvssq", "joint", "fvss"} {
+		n, t, me, dealer, other := 3, 1, 1, 0, 2
+		p := c.randPoly(t)
+		good := shareMsg(p.eval(me + 1))
+		alphabet := []string{
+			"B:0:" + hx(p.vectorMsg()),                                // 0: the verification vector
+			"P:0:" + hx(good),                                         // 1: the right share
+			"P:0:" + hx(shareMsg(c.randScalar())),                     // 2: a well-formed wrong share
+			"P:0:" + hx(good[:len(good)-1]),                           // 3: a malformed share
+			fmt.Sprintf("B:%d:%s", other, hx(complaintMsg(dealer))),   // 4: another node complains
+			"B:0:" + hx(answerMsg(other, p.eval(other+1))),            // 5: right answer to it
+			"B:0:" + hx(answerMsg(other, c.randScalar())),             // 6: wrong answer to it
+			"B:0:" + hx(answerMsg(me, p.eval(me+1))),                  // 7: right answer to my complaint
+			"B:0:" + hx(answerMsg(me, c.randScalar())),                // 8: wrong answer to my complaint
+			"T",                                                       // 9: a timeout in between
+		}
+		// full enumeration up to fullLen; one level deeper restricted to sequences of distinct letters that contain the
+		// vector and no timeout
+		fullLen := 3
+		if proto != "fvssq" {
+			fullLen = 2
+		}
+		if c.thorough() {
+			fullLen++
+		}
+		var seqs [][]int
+		var rec func(cur []int)
+		rec = func(cur []int) {
+			if len(cur) > 0 {
+				if len(cur) <= fullLen {
+					seqs = append(seqs, append([]int{}, cur...))
+				} else {
+					hasV := false
+					for _, a := range cur {
+						if a == 0 {
+							hasV = true
+						}
+					}
+					if hasV {
+						seqs = append(seqs, append([]int{}, cur...))
+					}
+				}
+			}
+			if len(cur) == fullLen+1 {
+				return
+			}
+			for a := range alphabet {
+				if len(cur) == fullLen {
+					// the extra level: distinct letters, no timeout
+					dup := a == 9
+					for _, b := range cur {
+						if b == a || b == 9 {
+							dup = true
+						}
+					}
+					if dup {
+						continue
+					}
+				}
+				rec(append(cur, a))
+			}
+		}
+		rec(nil)
+		seed := "S:" + hx(c.bytes(32))
+		for si, sq := range seqs {
+			nd, err := newDkgNode(proto, n, t, me, dealer)
+			if err != nil {
+				panic(err)
+			}
+			nd.call(seed)
+			for _, a := range sq {
+				nd.call(alphabet[a])
+			}
+			nd.call("T")
+			nd.call("T")
+			nd.call("E")
+			if nopanic {
+				res := "nopanic"
+				if nd.panicked {
+					res = "PANIC in " + nd.line()
+				}
+				c.Case("dkg-enum/"+proto, fmt.Sprintf("expect nopanic #enum-%s-%d", proto, si), res)
+			}
+			c.Case("dkg-enum-model/"+proto, nd.line(), nd.answer())
+		}
+	}
 }
